@@ -91,6 +91,8 @@ func thoroughExtras(root string, p *PropDef, o runOpts) map[string]any {
 			skipped++
 		}
 	}
+	ren := renameInvariance(exe, root, o.repo, p.ID)
+	fmt.Printf("   rename invariance (every local, parameter and receiver renamed): %s\n", ren)
 	fmt.Printf("   mutant self-test: %d patches: %d killed, %d missed, %d skipped; behaviour-preserving variants: %d silent, %d false alarms (not part of the verdict)\n", len(patches), killed, missed, skipped, silent, falseAlarm)
 	for _, r := range results {
 		if r.Outcome != "killed" && r.Outcome != "silent" {
@@ -98,7 +100,7 @@ func thoroughExtras(root string, p *PropDef, o runOpts) map[string]any {
 		}
 	}
 	return map[string]any{"mutants_run": len(patches), "mutants_killed": killed, "mutants_missed": missed, "mutants_skipped": skipped,
-		"benign_variants_silent": silent, "benign_variants_false_alarm": falseAlarm, "mutants": results}
+		"benign_variants_silent": silent, "benign_variants_false_alarm": falseAlarm, "mutants": results, "rename_invariance": ren}
 }
 
 func runMutant(exe, root, repo, prop, patch string) mutantResult {
@@ -214,4 +216,40 @@ func cmdAnalyseVariant(args []string) int {
 		return 1
 	}
 	return 0
+}
+
+// renameInvariance analyses a copy of the tree in which every function-level
+// variable has another name; the rules must report nothing new on it.
+func renameInvariance(exe, root, repo, prop string) string {
+	dir, err := os.MkdirTemp("", "htsverif-ren-")
+	if err != nil {
+		return "skipped: " + err.Error()
+	}
+	defer os.RemoveAll(dir)
+	if err := copyTree(repo, dir); err != nil {
+		return "skipped: " + err.Error()
+	}
+	n, err := renameLocals(repo, dir, "Q")
+	if err != nil {
+		return "skipped: " + firstLine(err.Error())
+	}
+	an := exec.Command(exe, "analyse-variant", prop, dir)
+	an.Env = append(os.Environ(), "VERIF_ROOT="+root)
+	var buf bytes.Buffer
+	an.Stdout = &buf
+	an.Stderr = &buf
+	err = an.Run()
+	var rep []string
+	for _, ln := range strings.Split(buf.String(), "\n") {
+		if strings.HasPrefix(ln, "NEWFAIL ") {
+			rep = append(rep, strings.TrimPrefix(ln, "NEWFAIL "))
+		}
+	}
+	switch {
+	case err == nil:
+		return fmt.Sprintf("silent (%d identifiers renamed, same verdict)", n)
+	case len(rep) > 0:
+		return "FALSE ALARM on the renamed copy: " + strings.Join(rep, "; ")
+	}
+	return "skipped: analysis error: " + firstLine(buf.String())
 }
